@@ -218,14 +218,20 @@ CHECKS = {
     ),
     "C15": dict(
         category="model_checking",
-        text="Partial claim. (1) compute_capital_cost / compute_annual_capital_cost / compute_capital_recovery_factor / "
+        text="(1) compute_capital_cost / compute_annual_capital_cost / compute_capital_recovery_factor / "
              "get_capital_cost_targets executed symbolically with area, cost factors and discount rate as z3 reals: C = N(a + b (A/N)^c), "
              "annualised = C x CRF, CRF x sum_k (1+i)^-k = 1 (rational-function identity for concrete lives), both strictly increasing in "
-             "area (x^c as a monotone uninterpreted function). (2) pipeline sweeps with balanced curves on: balanced hot and cold "
-             "composite curves are process + utility columns and have equal enthalpy spans on the shifted and the real table.",
+             "area (x^c as a monotone uninterpreted function). (2) get_balanced_CC with film resistances or heat-capacity flowrates as z3 reals: "
+             "every interval resistance is the duty-weighted film resistance of the participants present. (3) the whole direct-integration "
+             "pipeline with area targeting on, on concrete stream/utility templates with the film resistance of EVERY stream and utility a z3 real: "
+             "the reported area target equals an independent reference (harness/arearef.py: balanced composites, enthalpy intervals, "
+             "counter-current LMTD from the streams and utility duties), is positive, and the capital cost is N(a + b(A/N)^c) of it. "
+             "(4) pipeline sweeps with balanced curves on: balanced hot and cold composite curves are process + utility columns and have "
+             "equal enthalpy spans on the shifted and the real table.",
         design_ref="5/C15, 8",
-        note="NOT covered: the area integral of get_area_targets (np.interp / make_monotonic epsilon offsets / 6-dp enthalpy rounding around "
-             "log-mean differences of ratios of unknowns -- no linear family, NRA+UF returns unknown) and the exchanger-count heuristic; the "
+        note="Bounded as stated: in (3) temperatures and heat-capacity flowrates are concrete per template (3 quick / 10 thorough), so the enthalpy "
+             "intervals and log-mean differences are constants and only the film resistances are quantified by the solver; symbolic temperatures or duties "
+             "inside the area integral (log-mean differences of ratios of unknowns) stay outside, as does the exchanger-count heuristic; the "
              "LMTD clauses are decided under C20. " + ENGINE_NOTE,
         technique="solver-based symbolic execution of the real code (z3; power law as monotone uninterpreted function, annuity as rational identity)",
     ),
